@@ -28,7 +28,7 @@ func (c18) ID() string { return "C18" }
 func (c18) Meta(tier string) engine.Meta {
 	return engine.Meta{
 		Level: "model_checking",
-		Rule: "all ordered pairs of values of one type, for 11 types: numbers {0,-0,1,1+2e-9,0.1,2^53,2^53+2,2^63,2^63+2048,1e300,1e301,-1e300}, strings needing escapes, booleans, instants (incl. the same instant in another zone and with sub-second parts), lists of <= 2 numbers, lists of objects, string- and number-keyed maps built in every insertion order, 3-field objects in all 6 field orders, nested objects, optionals; each pair as raw values and (where Go data can express it) as converted host data; every pair under map-iteration seeds 1..8 (all orders the runtime can produce for <= 8 entries). Oracle (premise: numeric parts identical or further apart than the tolerance, guaranteed by the value sets): x == y (language operator on singleton lists), equal String(), equal Key() / isset / get on a map keyed by x, and union / intersect / diff element identity must all coincide with the reference's structural equality; reflexive on independently built copies, symmetric; String() identical for every seed. non-trivial = every pair",
+		Rule: "all ordered pairs of values of one type, for 11 types: numbers {0,-0,1,1+2e-9,0.1,2^53,2^53+2,2^63,2^63+2048,1e300,1e301,-1e300}, strings needing escapes, booleans, instants (incl. the same instant in another zone and with sub-second parts), lists of <= 2 numbers, lists of objects, string- and number-keyed maps built in every insertion order, 3-field objects in all 6 field orders, nested objects, optionals; each pair as raw values and (where Go data can express it) as converted host data; plus programs in which one value is reached through two paths ([xs, xs], {a: xs, b: xs}, …) against the equal value built from separate copies; every pair under map-iteration seeds 1..8 (all orders the runtime can produce for <= 8 entries). Oracle (premise: numeric parts identical or further apart than the tolerance, guaranteed by the value sets): x == y (language operator on singleton lists), equal String(), equal Key() / isset / get on a map keyed by x, and union / intersect / diff element identity must all coincide with the reference's structural equality; reflexive on independently built copies, symmetric; String() identical for every seed. non-trivial = every pair",
 		Bound: "values of depth <= 2; containers of width <= 2 (objects 3); 8 seeds",
 		Assumptions: []string{"probe programs are compiled once per element type on the default back end and invoked per pair"},
 	}
@@ -119,7 +119,28 @@ type c18Data struct {
 	Rep  string
 }
 
+// shared-structure programs: one value reached through two paths must render like the equal value
+// built from separate copies
+var c18SharedProgs = [][2]string{
+	{"[xs, xs]", "[[1, 2], [1, 2]]"},
+	{"{a: xs, b: xs}", "{a: [1, 2], b: [1, 2]}"},
+	{"[o, o]", "[{a: 1, b: \"x\"}, {a: 1, b: \"x\"}]"},
+	{"[\"k\": xs, \"j\": xs]", "[\"k\": [1, 2], \"j\": [1, 2]]"},
+	{"[[xs, xs], [xs, xs]]", "[[[1, 2], [1, 2]], [[1, 2], [1, 2]]]"},
+	{"{p: o, q: [o, o]}", "{p: {a: 1, b: \"x\"}, q: [{a: 1, b: \"x\"}, {a: 1, b: \"x\"}]}"},
+	{"[m, m]", "[[\"a\": 1], [\"a\": 1]]"},
+	{"union([xs], [xs])", "[[1, 2]]"},
+	{"[if(true, xs, xs), xs]", "[[1, 2], [1, 2]]"},
+}
+
 func (c18) Generate(tier string, yield func(*engine.Case) bool) {
+	for i, p := range c18SharedProgs {
+		for _, wrap := range []string{"%s", "string(%s)"} {
+			if !yield(&engine.Case{Family: "shared-structure", Key: fmt.Sprintf("%d|%s", i, fmt.Sprintf(wrap, p[0])), Src: fmt.Sprintf(wrap, p[0]), Args: []string{"shared", fmt.Sprintf(wrap, p[1])}}) {
+				return
+			}
+		}
+	}
 	vals := c18Values()
 	for _, tn := range c18TypeOrder {
 		vs := vals[tn]
@@ -197,7 +218,36 @@ func toRealVal(v *ref.V, rep string) (*val.Val, error) {
 	return conv.ValOf(real.ToGo(v).Interface())
 }
 
+func (c18) runShared(c *engine.Case) *engine.Result {
+	res := &engine.Result{NonTrivial: true}
+	env := real.EnvSpec{Rep: "raw", Binds: []real.Binding{
+		{Name: "xs", V: ref.ListV(gen.Num, nums(1, 2)...)},
+		{Name: "o", V: oab(1, "x")},
+		{Name: "m", V: ref.MapV(gen.Str, gen.Num, ref.StrV("a"), ref.NumV(1))},
+	}}
+	var outs []string
+	for _, b := range real.Backends {
+		shared := real.Run(b, nil, c.Src, env)
+		copies := real.Run(b, nil, c.Args[1], env)
+		res.Execs += 2
+		if shared.Val == nil || copies.Val == nil {
+			res.Violations = append(res.Violations, vf("probe-failed", "%s / %s on %s: %s%s %s%s", c.Src, c.Args[1], b, shared.CompileErr, shared.RunErr, copies.CompileErr, copies.RunErr))
+			continue
+		}
+		s1, s2 := shared.Val.String(), copies.Val.String()
+		outs = append(outs, s1)
+		if s1 != s2 {
+			res.Violations = append(res.Violations, vf("render-shared-structure", "%s renders %q on %s, the equal value %s (separate copies) renders %q", c.Src, s1, b, c.Args[1], s2))
+		}
+	}
+	res.Outcome = strings.Join(outs, ";")
+	return res
+}
+
 func (c18) Run(c *engine.Case) *engine.Result {
+	if len(c.Args) > 0 && c.Args[0] == "shared" {
+		return c18{}.runShared(c)
+	}
 	var d c18Data
 	if err := json.Unmarshal(c.Data, &d); err != nil {
 		panic(err)
